@@ -396,7 +396,9 @@ func (ex *Explorer) runPath(in *Interp, it *workItem) {
 			case targetPanic:
 				outcome = "panicked"
 				detail = "panic: " + in.panicString(r.v)
+				in.panicStack = r.stack
 				in.reportFailure("panic", detail)
+				in.panicStack = ""
 			case goexitPanic:
 				outcome = "completed"
 			default:
@@ -970,7 +972,7 @@ func (in *Interp) recordViolation(kind, msg string, m map[string]uint64, knownID
 	for _, v := range in.symVars {
 		inputs[v.Name] = m[v.Name]
 	}
-	v := Violation{Harness: in.ex.fn.Name(), Kind: kind, Msg: msg, Inputs: inputs, Vars: append([]SymVar(nil), in.symVars...), KnownIDs: knownIDs}
+	v := Violation{Harness: in.ex.fn.Name(), Kind: kind, Msg: msg, Inputs: inputs, Vars: append([]SymVar(nil), in.symVars...), KnownIDs: knownIDs, Stack: in.panicStack + in.targetStack()}
 	ex := in.ex
 	ex.mu.Lock()
 	defer ex.mu.Unlock()
@@ -1025,7 +1027,7 @@ func reachLabels(fn *ssa.Function) []string {
 
 func (in *Interp) targetStack() string {
 	var parts []string
-	for i := len(in.callStack) - 1; i >= 0 && len(parts) < 6; i-- {
+	for i := len(in.callStack) - 1; i >= 0 && len(parts) < 14; i-- {
 		parts = append(parts, in.callStack[i].String())
 	}
 	return strings.Join(parts, " <- ")
